@@ -120,6 +120,11 @@ def numeric_tables(ctx, t):
             if np.max(np.abs(post - ref)) > 1e-9:
                 ok_d = False
                 detail.append(f"basis {bnames[bval]}, {names[val]}: {post.round(3).tolist()} vs {ref.round(3).tolist()}")
+                ctx.violation("measure-directly: post-processed outcomes do not have the joint statistics of Phi+",
+                              dict(basis=bnames[bval], rotations=list(dict(t["basis_rot"])[bval]), bell_state=names[val],
+                                   joint_distribution_postprocessed=post.round(6).tolist(),
+                                   joint_distribution_phi_plus=ref.round(6).tolist(),
+                                   postprocess_table={str(m): pp[(bval, val, m)] for m in (0, 1)}), key=None)
     ctx.gen_obligation("(d) numeric: post-processed outcomes on every Bell state have the joint statistics of Phi+ "
                        "(6 bases x 4 states)", ok_d, "; ".join(detail[:4]))
     ctx.gen_obligation("(d) without post-processing the raw outcome is returned", raw_ok, "")
@@ -375,7 +380,8 @@ def run(ctx):
     except Exception as e:  # noqa
         ctx.gen_obligation("regenerated tables usable by the numeric oracle", False, repr(e)[:300])
         t = None
-        table = {}
+        # the classification of the recorded wait-all class still needs the gates the code applies
+        table = {m.value: epr_tables.probe_corrections(ctx.repo, m.value) for m in ns.qc.BellState}
     quick = ctx.tier == "quick"
     bvals = [m.value for m in ns.qc.BellState]
     phi_plus = ns.qc.BellState.PHI_PLUS.value
@@ -454,9 +460,17 @@ def run(ctx):
                 first = first or tmeta[files[fn] + i]
         ctx.coverage["model_impl_mismatches"] = nmis
         ctx.coverage["correspondence_cases"] = len(tcases)
-    if nmis and not [v for v in ctx.violations if v["key"] != KNOWN_WAITALL]:
+    real = [v for v in ctx.violations if v["key"] != KNOWN_WAITALL]
+    if nmis and not real:
         ctx.broken.append(f"correspondence EprBuild (code_W/code_P/code_M gate events) vs the executed subroutine: {nmis} "
                           f"differing traces, first: {json.dumps(first)[:400]}")
+    undis = [n for n, okk in ctx.obligations if not okk]
+    if (ctx.broken or undis) and not real:
+        # the whole stream (all tuples n <= 2 for every variant, see above) went through the oracle and
+        # nothing but the recorded class failed: name what no longer checks (vlib would stay silent
+        # because the known-finding replay counts as a violation there)
+        ctx.violation("obligation no longer checks: " + "; ".join(ctx.broken or undis),
+                      dict(broken=ctx.broken, undischarged=undis), key=None, found_input=False)
     ctx.finish()
 
 
